@@ -13,6 +13,7 @@ import (
 
 	"github.com/dtn7/dtn7-go/pkg/bpv7"
 	"github.com/dtn7/dtn7-go/pkg/cla"
+	"github.com/dtn7/dtn7-go/pkg/verifhook"
 )
 
 type ProphetConfig struct {
@@ -392,6 +393,7 @@ func (prophet *Prophet) ReportFailure(bp BundleDescriptor, sender cla.Convergenc
 		}).Warn("Bundle had no stored sender-list")
 		return
 	}
+	verifhook.At("routing.prophet.reportfailure")
 
 	log.WithFields(log.Fields{
 		"bundle": bp.ID(),
